@@ -1,6 +1,240 @@
-//! C03 — not built yet.
+//! C03 — counterparty commitments advance only over properly revoked predecessors.
+//! Group 0: the real-channel correspondence group of C01 (`c01.rs`, `c01_world.rs`) with an op mix
+//! that favours sign-counterparty / counterparty-revocation; the C03 monitor keeps the ledger of
+//! signed (number → point, content) and verified revocations.
+//! Group 1: the Rust `CounterpartyCommitmentSecrets` against the Lean store (`vlsmodel secrets`,
+//! executable SHA-256) on seeded, replayed, out-of-order and corrupted secret sequences.
 use crate::common::*;
+use lightning_signer::bitcoin::hashes::{sha256, Hash};
+use lightning_signer::lightning::ln::chan_utils::build_commitment_secret;
+use lightning_signer::policy::validator::CounterpartyCommitmentSecrets;
+use std::panic::{catch_unwind, AssertUnwindSafe};
+
+const N48: u64 = 1 << 48;
+
+pub struct SecretsGroup;
+
+/// independent re-statement of BOLT-3 derivation (monitor side)
+fn derive(secret: [u8; 32], bits: u32, idx: u64) -> [u8; 32] {
+    let mut res = secret;
+    for b in (0..bits).rev() {
+        if idx >> b & 1 == 1 {
+            res[(b / 8) as usize] ^= 1 << (b % 8);
+            res = sha256::Hash::hash(&res).to_byte_array();
+        }
+    }
+    res
+}
+
+fn store_items(s: &CounterpartyCommitmentSecrets) -> Vec<([u8; 32], u64)> {
+    let v = serde_json::to_value(s).unwrap();
+    let arr = v.get("old_secrets").and_then(|a| a.as_array()).cloned().unwrap_or_default();
+    arr.iter()
+        .map(|e| {
+            let sec = &e[0];
+            let bytes: Vec<u8> = if let Some(st) = sec.as_str() {
+                hex::decode(st).unwrap()
+            } else {
+                sec.as_array().unwrap().iter().map(|b| b.as_u64().unwrap() as u8).collect()
+            };
+            (bytes.try_into().unwrap(), e[1].as_u64().unwrap())
+        })
+        .collect()
+}
+
+fn digest(s: &CounterpartyCommitmentSecrets) -> String {
+    let items = store_items(s);
+    let l: Vec<String> = items.iter().map(|(b, i)| format!("{}:{}", hex::encode(b), i)).collect();
+    format!("{} {} [{}]", items.len(), s.get_min_seen_secret(), l.join(","))
+}
+
+impl Group for SecretsGroup {
+    fn property(&self) -> &'static str { "C03" }
+    fn model(&self) -> Option<&'static str> { Some("secrets") }
+    fn rule(&self) -> &'static str {
+        "secrets: CounterpartyCommitmentSecrets::{provide_secret,get_secret,get_min_seen_secret} vs the Lean store with \
+         executable SHA-256; sequences: consecutive descending from 2^48-1 from one seed (LDK build_commitment_secret), \
+         power-of-two jumps filling up to all 49 slots, replays (same/different secret), out-of-order and future indices, \
+         secrets corrupted or taken from another seed at each tree level, indices >= 2^48 and u64 extremes; every get compared; \
+         non-trivial = at least one accepted and one rejected provide"
+    }
+    fn budget(&self, tier: Tier) -> usize { if tier == Tier::Quick { 250 } else { 5000 } }
+    fn corpus(&self) -> Vec<Vec<String>> {
+        let seed = [5u8; 32];
+        let sec = |i: u64| hex::encode(build_commitment_secret(&seed, i));
+        // all 49 slots by power-of-two jumps, then reads at the boundaries
+        let mut a = vec!["new".to_string()];
+        for k in 0..=48u32 {
+            let idx = N48 - (1u64 << k);
+            a.push(format!("provide {} {}", idx, sec(idx)));
+        }
+        for k in 0..=48u32 {
+            a.push(format!("get {}", N48 - (1u64 << k)));
+            a.push(format!("get {}", (N48 - (1u64 << k)).wrapping_add(1) & (N48 - 1)));
+        }
+        a.push(format!("provide {} {}", 0, sec(1)));
+        // BOLT-3 appendix D style: wrong secret detected one level up
+        let other = [6u8; 32];
+        let mut b = vec!["new".to_string()];
+        b.push(format!("provide {} {}", N48 - 1, hex::encode(build_commitment_secret(&other, N48 - 1))));
+        b.push(format!("provide {} {}", N48 - 2, sec(N48 - 2)));
+        b.push(format!("provide {} {}", N48 - 1, sec(N48 - 1)));
+        b.push(format!("provide {} {}", N48 - 3, sec(N48 - 3)));
+        b.push(format!("get {}", N48 - 1));
+        b.push(format!("get {}", N48 - 4));
+        vec![a, b]
+    }
+    fn gen_case(&self, rng: &mut Rng, tier: Tier) -> Vec<String> {
+        let mut seed = [0u8; 32];
+        seed.copy_from_slice(&rng.bytes(32));
+        let mut seed2 = seed;
+        seed2[0] ^= 1;
+        let sec = |s: &[u8; 32], i: u64| hex::encode(build_commitment_secret(s, i & (N48 - 1)));
+        let mut ops = vec!["new".to_string()];
+        let len = rng.range(4, if tier == Tier::Quick { 40 } else { 120 }) as usize;
+        let mut cur = N48 - 1; // next index of the honest descending walk
+        let mode = rng.below(3); // 0: step -1, 1: power-of-two jumps, 2: mixed
+        let mut k = 0u32;
+        let mut provided: Vec<u64> = vec![];
+        for _ in 0..len {
+            let r = rng.below(100);
+            if r < 60 {
+                // honest next
+                let idx = if mode == 1 || (mode == 2 && rng.chance(1, 3)) {
+                    let i = N48 - (1u64 << k.min(48));
+                    k += 1;
+                    i
+                } else {
+                    let i = cur;
+                    cur = cur.saturating_sub(1);
+                    i
+                };
+                let bad = rng.chance(1, 12);
+                ops.push(format!("provide {} {}", idx, sec(if bad { &seed2 } else { &seed }, idx)));
+                provided.push(idx);
+            } else if r < 70 && !provided.is_empty() {
+                // replay
+                let idx = *rng.pick(&provided);
+                ops.push(format!("provide {} {}", idx, sec(if rng.chance(1, 3) { &seed2 } else { &seed }, idx)));
+            } else if r < 78 {
+                // out of order / boundary / extreme index
+                let idx = match rng.below(6) {
+                    0 => cur.saturating_sub(rng.range(1, 5)),
+                    1 => (1u64 << rng.below(49)).wrapping_sub(rng.below(2)),
+                    2 => N48 + rng.below(3),
+                    3 => u64::MAX - rng.below(2),
+                    4 => rng.next() & (N48 - 1),
+                    _ => 0,
+                };
+                ops.push(format!("provide {} {}", idx, sec(&seed, idx)));
+                provided.push(idx);
+            } else if r < 84 {
+                // corrupted secret: one bit flipped
+                let idx = cur;
+                let mut s = build_commitment_secret(&seed, idx & (N48 - 1));
+                s[rng.below(32) as usize] ^= 1 << rng.below(8);
+                ops.push(format!("provide {} {}", idx, hex::encode(s)));
+            } else {
+                let idx = match rng.below(5) {
+                    0 if !provided.is_empty() => *rng.pick(&provided),
+                    1 => cur,
+                    2 => cur.saturating_sub(1),
+                    3 => rng.next() & (N48 - 1),
+                    _ => N48 - 1 - rng.below(8),
+                };
+                ops.push(format!("get {}", idx));
+            }
+        }
+        ops
+    }
+    fn exec_case(&self, ops: &[String]) -> CaseOut {
+        let mut co = CaseOut::default();
+        let mut st = CounterpartyCommitmentSecrets::new();
+        // ledger: consecutive accepted provides from 2^48-1 (the channel's usage pattern)
+        let mut ledger: Vec<(u64, [u8; 32])> = vec![];
+        let mut consecutive = true;
+        let (mut acc, mut rej) = (false, false);
+        for (i, op) in ops.iter().enumerate() {
+            let t: Vec<&str> = op.split_whitespace().collect();
+            let line = match t.as_slice() {
+                ["new"] => {
+                    st = CounterpartyCommitmentSecrets::new();
+                    ledger.clear();
+                    consecutive = true;
+                    format!("ok {}", digest(&st))
+                }
+                ["provide", idx, sec] => {
+                    let idx: u64 = idx.parse().unwrap();
+                    let s: [u8; 32] = hex::decode(sec).unwrap().try_into().unwrap();
+                    let before = store_items(&st);
+                    let r = catch_unwind(AssertUnwindSafe(|| {
+                        let mut c = st.clone();
+                        let r = c.provide_secret(idx, s);
+                        (c, r)
+                    }));
+                    match r {
+                        Err(_) => { co.tags.insert("provide:panic".into()); "panic".to_string() }
+                        Ok((c, Err(()))) => {
+                            rej = true;
+                            co.tags.insert("provide:err".into());
+                            if store_items(&c) != before {
+                                co.violations.push(Violation { kind: "c03-store-changed-on-reject".into(), desc: format!("rejected provide({}) changed the store", idx), at: i });
+                            }
+                            format!("err {}", digest(&st))
+                        }
+                        Ok((c, Ok(()))) => {
+                            acc = true;
+                            co.tags.insert("provide:ok".into());
+                            // accepted ⇒ every lower slot is derivable from the new secret
+                            let pos = (0..48).find(|b| idx >> b & 1 == 1).unwrap_or(48) as usize;
+                            for (p, (os, oi)) in before.iter().enumerate().take(pos) {
+                                if derive(s, pos as u32, *oi) != *os {
+                                    co.violations.push(Violation { kind: "c03-store-accepted-inconsistent".into(), desc: format!("provide({}) accepted although slot {} (index {}) is not derivable from it", idx, p, oi), at: i });
+                                }
+                            }
+                            let expect_next = ledger.last().map(|x| x.0.wrapping_sub(1)).unwrap_or(N48 - 1);
+                            let changed = store_items(&c) != before;
+                            if idx == expect_next && consecutive {
+                                ledger.push((idx, s));
+                            } else if changed {
+                                consecutive = false;
+                                co.tags.insert("provide:out-of-order-accepted".into());
+                            }
+                            st = c;
+                            if store_items(&st).len() > 49 {
+                                co.violations.push(Violation { kind: "c03-store-size".into(), desc: "more than 49 entries".into(), at: i });
+                            }
+                            if consecutive {
+                                for (j, sj) in &ledger {
+                                    let g = catch_unwind(AssertUnwindSafe(|| st.get_secret(*j))).ok().flatten();
+                                    if g != Some(*sj) {
+                                        co.violations.push(Violation { kind: "c03-store-lost-secret".into(), desc: format!("after provide({}) get_secret({}) no longer yields the accepted secret", idx, j), at: i });
+                                        break;
+                                    }
+                                }
+                            }
+                            format!("ok {}", digest(&st))
+                        }
+                    }
+                }
+                ["get", idx] => {
+                    let idx: u64 = idx.parse().unwrap();
+                    match catch_unwind(AssertUnwindSafe(|| st.get_secret(idx))) {
+                        Err(_) => { co.tags.insert("get:panic".into()); "panic".into() }
+                        Ok(None) => { co.tags.insert("get:none".into()); "none".into() }
+                        Ok(Some(s)) => { co.tags.insert("get:some".into()); format!("some {}", hex::encode(s)) }
+                    }
+                }
+                _ => "bad-op".to_string(),
+            };
+            co.out.push(line);
+        }
+        co.tags.insert(format!("slots:{}", store_items(&st).len() / 8 * 8));
+        co.nontrivial = acc && rej;
+        co
+    }
+}
 
 pub fn groups() -> Vec<Box<dyn Group>> {
-    vec![]
+    vec![Box::new(super::c01::EnfGroup { prop: "C03" }), Box::new(SecretsGroup)]
 }
